@@ -124,7 +124,10 @@ def locate(src, path):
   ranges = [(0, len(toks))]
   comps = [c.strip() for c in path.split(' / ')]
   for comp in comps[:-1]:
-    kind, _, want = comp.partition(' ')
+    if comp.startswith('impl'):
+      kind, want = 'impl', comp[4:]
+    else:
+      kind, _, want = comp.partition(' ')
     if kind not in ('impl', 'mod'):
       raise ExtractError('bad path component %r' % comp)
     nxt = []
